@@ -16,7 +16,8 @@
 From Coq Require Import String.
 From Coq Require Import List ZArith NArith Bool.
 From Verif Require Import common.Sexp sem.JV sem.Syntax sem.Natives sem.Sem sem.BuiltinLaws sem.BuiltinCalls
-  sem.StreamLaws sem.StreamLawsProofs gen.GenBuiltins.
+  sem.PathSound sem.StreamWfProofs sem.StreamObs sem.StreamObsProofs sem.PathsObsProofs sem.StreamLaws sem.StreamLawsProofs sem.StreamGen sem.StreamGenProofs sem.PathsRoot sem.PathsRootProofs
+  gen.GenBuiltins.
 Import ListNotations.
 
 Theorem C13d_paths : forall bs, stream_pins bs -> forall m rho v ps k, undefined_in rho "paths" 0 ->
@@ -37,6 +38,83 @@ Theorem C13d_tostream_event : forall bs, stream_pins bs -> forall m p v k s,
 Proof. exact ts_tail_sem. Qed.
 Print Assumptions C13d_tostream_event.
 
+(* THE GENERATOR of tostream, path(def r: (.[]?|r), .; r), on ANY value v (no well-formedness needed), with fuel
+   14 + n for any n >= 7 * vsize v (vsize = number of nodes), any consumer k and state s: a fresh id for the root, then
+   [gen_run]: the structural walk of v, children first (arrays by index, objects in the order of the association list =
+   gojq's sorted keys), one unit of the step budget per node (the call of r), one fresh navigation id per child, the
+   path of a node handed to k AFTER the paths of its descendants.  (coq/sem/StreamGen.v: gen_run; the order of the paths
+   is post_paths.) *)
+Theorem C13d_tostream_generator : forall bs, lookup_builtin bs (codes "path") 1 = None ->
+  forall n v (k : K) s, (7 * vsize v <= n)%nat ->
+  eval_q bs (14 + n) [] ts_gen (plain v) None k s =
+  (_ <- fresh ;; gen_run (fun p => k (plain (VArr p)) None) v []) s.
+Proof. exact gen_eval. Qed.
+Print Assumptions C13d_tostream_generator.
+
+(* TOSTREAM as a whole, on ANY value v, fuel 20 + n for n >= 7 * vsize v, any top-level consumer k and state s: one unit
+   of budget for the call, then the walk of v, children first, and at every node (path p) exactly the event of
+   C13d_tostream_event for the value getpath finds at p: the leaf event [p, getpath(p)] at nodes without children, the
+   closing event [p + [last key]] after the last child of a non-empty container (the top-level closing event is [[last
+   key]], as jq emits it).  So tostream emits exactly one event per node of the value, in document order of the leaves,
+   and every two-element event [p, leaf] satisfies getpath(p) = leaf. *)
+Theorem C13d_tostream : forall bs, stream_pins bs -> forall n v (k : K) s, (7 * vsize v <= n)%nat ->
+  eval_q bs (20 + n) [] (q_call (codes "tostream") []) (plain v) None k s =
+  (tick ;; (_ <- fresh ;;
+            gen_run (fun p => lift (fn_getpath v (VArr p)) (fun x => k (plain (ts_event p x)) None)) v [])) s.
+Proof. exact tostream_sem. Qed.
+Print Assumptions C13d_tostream.
+
+(* TOSTREAM ON A WELL-FORMED VALUE (PathSound.jv_wf: objects strictly sorted = what gojq holds, array lengths within
+   Go's int): getpath finds at every visited path the node itself, so tostream is the value-level walk [vrun]: children
+   first, one event per node computed from the node's path and VALUE — the leaf event [p, leaf] (with getpath(p) = leaf,
+   by C13d_tostream) at scalars and empty containers, in document order, the closing event [p + [last key]] after the
+   last child of a non-empty container. *)
+Theorem C13d_tostream_wf : forall bs, stream_pins bs -> forall n v (k : K) s, jv_wf v -> (7 * vsize v <= n)%nat ->
+  eval_q bs (20 + n) [] (q_call (codes "tostream") []) (plain v) None k s =
+  (tick ;; (_ <- fresh ;; vrun (fun p x => k (plain (ts_event p x)) None) v [])) s.
+Proof. exact tostream_wf_sem. Qed.
+Print Assumptions C13d_tostream_wf.
+
+(* [paths] = [path(..)] WITHOUT THE ROOT, on ANY value, fuel from the size: both are the same walk (PathsRoot.v:
+   node first, then its children in .[] order, two units of budget per node, one fresh id per child).  path(..) hands
+   the root path [] to its consumer and then every other path (pre_kids); paths spends its two units of budget on the
+   root, drops it, and hands every other path to its consumer, in the same order.  (recurse/0 and recurse/1 are pinned
+   to their builtin.jq text: recurse_pins.) *)
+Theorem C13d_paths_root : forall bs, stream_pins bs -> recurse_pins bs -> forall n v (k : K) s, (7 * vsize v <= n)%nat ->
+  eval_q bs (27 + n) [] (q_call (codes "paths") []) (plain v) None k s =
+  (tick ;; (_ <- fresh ;; (tick ;; (tick ;;
+     (tick ;; ((tick ;; (tick ;; ret tt)) ;;
+               (tick ;; pre_kids (fun p => tick ;; (tick ;; k (plain (VArr p)) None)) v []))))))) s /\
+  eval_q bs (24 + n) [] (StreamLaws.q_path q_dotdot) (plain v) None k s =
+  (_ <- fresh ;; (tick ;; (tick ;;
+     (tick ;; (k (plain (VArr [])) None ;;
+               (tick ;; pre_kids (fun p => k (plain (VArr p)) None) v [])))))) s.
+Proof. exact paths_root_sem. Qed.
+Print Assumptions C13d_paths_root.
+
+(* TOSTREAM OBSERVED: on a well-formed value, with fuel 20 + n (n >= 7 * vsize v), a step budget of at least 1 + vsize v
+   (the model's is 200000) and an output cap above vsize v, the observation is EXACTLY the list [events v] — the events
+   of the value (StreamObs.v: children first, the leaf event [p, leaf] at scalars and empty containers, the closing
+   event [p + [last key]] after the last child of a non-empty container; one event per node) — and a normal end. *)
+Theorem C13d_tostream_observe : forall bs, stream_pins bs -> forall n v capn rs ins, jv_wf v -> (7 * vsize v <= n)%nat ->
+  (N.of_nat (S (vsize v)) <= step_budget)%N -> (vsize v < capn)%nat ->
+  observe bs (20 + n) capn rs ins (q_call (codes "tostream") []) v = (events v, EndNormal).
+Proof. exact tostream_observe. Qed.
+Print Assumptions C13d_tostream_observe.
+
+(* PATHS AND PATH(..) OBSERVED, on ANY value (fuel from the size, budget >= 4 * vsize v + 3, cap above vsize v): the
+   observation of path(..) is the root path [] followed by [kids_paths v] (the paths of the proper descendants, node
+   first, children in .[] order), the observation of paths is [kids_paths v]: [paths] = [path(..)] without the root. *)
+Theorem C13d_paths_observe : forall bs, stream_pins bs -> recurse_pins bs -> forall n v capn rs ins, (7 * vsize v <= n)%nat ->
+  (N.of_nat (4 * vsize v + 3) <= step_budget)%N -> (vsize v < capn)%nat ->
+  observe bs (27 + n) capn rs ins (q_call (codes "paths") []) v = (map VArr (kids_paths v), EndNormal) /\
+  observe bs (24 + n) capn rs ins (StreamLaws.q_path q_dotdot) v = (VArr [] :: map VArr (kids_paths v), EndNormal).
+Proof. exact paths_observe. Qed.
+Print Assumptions C13d_paths_observe.
+
+Example C13d_recurse_pins : recurse_pins builtin_defs.
+Proof. split; reflexivity. Qed.
+
 (* the pins hold for builtin.jq of the current tree (paths and tostream pinned to their text) *)
 Example C13d_pins : stream_pins builtin_defs.
 Proof. repeat split; reflexivity. Qed.
@@ -49,7 +127,7 @@ Definition q_arr (q : query) : query := q_term (TArray (Some q)).
 (* [paths] = [path(..)] without its first element (the root), same order *)
 Example C13d_ex_paths :
   match observe builtin_defs 80 50 false [] (q_arr (q_call (codes "paths") [])) d_val,
-        observe builtin_defs 80 50 false [] (q_arr (q_path q_dotdot)) d_val with
+        observe builtin_defs 80 50 false [] (q_arr (StreamLaws.q_path q_dotdot)) d_val with
   | ([VArr ps], EndNormal), ([VArr (root :: rest)], EndNormal) => root = VArr [] /\ ps = rest /\ List.length ps = 5%nat
   | _, _ => False
   end.
@@ -67,4 +145,42 @@ Example C13d_ex_tostream :
                          end) evs = true
   | _ => False
   end.
+Proof. vm_compute. repeat split. Qed.
+
+(* C13d_tostream instantiated (fuel 20 + 7 * vsize = 62, top-level consumer emit): both sides computed *)
+Example C13d_ex_tostream_walk :
+  let n := (7 * vsize d_val)%nat in
+  let s := init_state 50 [] false in
+  vsize d_val = 6%nat /\
+  eval_q builtin_defs (20 + n) [] (q_call (codes "tostream") []) (plain d_val) None emit s =
+  (tick ;; (_ <- fresh ;;
+            gen_run (fun p => lift (fn_getpath d_val (VArr p)) (fun x => emit (plain (ts_event p x)) None)) d_val [])) s /\
+  post_paths d_val [] = [[vstr "a"; VInt 0]; [vstr "a"; VInt 1; vstr "b"]; [vstr "a"; VInt 1]; [vstr "a"]; [vstr "c"]; []].
+Proof. vm_compute. repeat split. Qed.
+
+(* d_val is well formed; C13d_paths_root instantiated, both sides computed *)
+Example C13d_ex_wf_and_root :
+  let n := (7 * vsize d_val)%nat in
+  let s := init_state 50 [] false in
+  jv_wf d_val /\
+  eval_q builtin_defs (20 + n) [] (q_call (codes "tostream") []) (plain d_val) None emit s =
+  (tick ;; (_ <- fresh ;; vrun (fun p x => emit (plain (ts_event p x)) None) d_val [])) s /\
+  eval_q builtin_defs (27 + n) [] (q_call (codes "paths") []) (plain d_val) None emit s =
+  (tick ;; (_ <- fresh ;; (tick ;; (tick ;;
+     (tick ;; ((tick ;; (tick ;; ret tt)) ;;
+               (tick ;; pre_kids (fun p => tick ;; (tick ;; emit (plain (VArr p)) None)) d_val []))))))) s.
+Proof. vm_compute. repeat split; try discriminate. Qed.
+
+(* the events of {"a":[1,{"b":null}],"c":{}} and the observation of tostream on it *)
+Example C13d_ex_events :
+  events d_val =
+  [VArr [VArr [vstr "a"; VInt 0]; VInt 1]; VArr [VArr [vstr "a"; VInt 1; vstr "b"]; VNull];
+   VArr [VArr [vstr "a"; VInt 1; vstr "b"]]; VArr [VArr [vstr "a"; VInt 1]]; VArr [VArr [vstr "c"]; VObj []];
+   VArr [VArr [vstr "c"]]] /\
+  observe builtin_defs (20 + 7 * vsize d_val) 50 false [] (q_call (codes "tostream") []) d_val = (events d_val, EndNormal).
+Proof. vm_compute. repeat split. Qed.
+
+Example C13d_ex_kids_paths :
+  kids_paths d_val = [[vstr "a"]; [vstr "a"; VInt 0]; [vstr "a"; VInt 1]; [vstr "a"; VInt 1; vstr "b"]; [vstr "c"]] /\
+  observe builtin_defs (27 + 7 * vsize d_val) 50 false [] (q_call (codes "paths") []) d_val = (map VArr (kids_paths d_val), EndNormal).
 Proof. vm_compute. repeat split. Qed.
